@@ -350,6 +350,9 @@ def run(tier, only=None):
                   assumptions=["LLVM IR semantics as implemented in engines/llsym (validated natively each run)",
                                "eigenvalue constants as documented in the source tests (their defining relations are ground facts)"],
                   outside=["unbounded termination of full-width Lagrange reduction",
+                           "secp256k1 split_theta: the linear glue between the two rounded quotients and the outputs (truncated products, "
+                           "subtraction chains modulo 2^160, abs128) -- posed: the quotients' contract, the constants' identities and the "
+                           "magnitude lemma |k0|, |k1| < 2^128",
                            "the algebraic contract k = k0 + k1*mu and the magnitude bounds of the constant-time splits "
                            "(stage (i) 'rounded division' lemma of the assume-guarantee proof does not close within budget); "
                            "posed for them: totality (single straight-line path) and exact sign words"],
